@@ -35,7 +35,7 @@ impl Scenario for ProgramLockstep {
         "program_lockstep"
     }
     fn quick_runs(&self, _f: &str) -> u64 {
-        3200
+        6400
     }
     fn chunk(&self) -> u64 {
         50
